@@ -1,0 +1,12 @@
+//go:build verif
+
+package litestream
+
+import "context"
+
+// Exported wrapper used only by the verification harness (build tag "verif"),
+// Fs layer (C11/C03): lets the harness observe the moment at which the
+// baseline fetch reports success, before the next sync touches the directory.
+func (db *DB) VerifCheckDatabaseBehindReplica(ctx context.Context) error {
+	return db.checkDatabaseBehindReplica(ctx)
+}
